@@ -43,7 +43,9 @@ HELPER_FUNCS = [
 ]
 
 LIFECYCLE_FUNCS = ["Server.Run", "Server.Stop", "Server.Ready", "conn.close", "conn.serveRequests", "newConn",
-                   "conn.initConn", "NewServer", "Server.Router"]
+                   "conn.initConn", "NewServer", "Server.Router",
+                   # cross-cutting: every deadline setter, go statement, recover and wait-group operation of the packages
+                   "sites.deadline", "sites.go", "sites.recover", "sites.waitgroup"]
 RUNTIME_TRUST = ["sync.Mutex / sync.WaitGroup / context cancellation / go statement: standard interleaving semantics",
                  "Go's panic rule (an unrecovered panic on any goroutine kills the process), net.Listener / net.Conn behaviour",
                  "hook placement rule: acquire-like points after the operation, release-like points before it"]
@@ -55,6 +57,7 @@ PROPS = {
         "inventory": DECODE_FUNCS,
         "streams": [
             {"stream": "decode-valid", "n_quick": 20000, "n_thorough": 400000},
+            {"stream": "clientwire", "n_quick": 1500, "n_thorough": 30000},
         ],
         "trusted": BER_TRUST,
         "assumptions": ["filters are compared semantically: the delivered filter string must recompile to the client's filter bytes"],
@@ -123,7 +126,7 @@ PROPS = {
     "C05": {
         "lean": ["GldapModel.Props.C05"],
         "audit": "GldapModel/Audit/C05.lean",
-        "inventory": ["ResponseWriter.Write", "newResponseWriter", "conn.serveRequests", "conn.initConn"],
+        "inventory": ["ResponseWriter.Write", "newResponseWriter", "conn.serveRequests", "conn.initConn", "sites.connwriter", "sites.go"],
         "streams": [
             {"stream": "c05", "n_quick": 60, "n_thorough": 1500, "timeout_quick": 600, "timeout_thorough": 3000},
         ],
@@ -167,7 +170,7 @@ PROPS = {
     },
     "C11": {
         "lean": ["GldapModel.Props.C11"], "audit": "GldapModel/Audit/C11.lean",
-        "inventory": LIFECYCLE_FUNCS,
+        "inventory": LIFECYCLE_FUNCS + ["Request.StartTLS", "ResponseWriter.Write", "Mux.serve"],
         "streams": [{"stream": "c11", "n_quick": 24, "n_thorough": 300, "timeout_quick": 900, "timeout_thorough": 3000}],
         "trusted": RUNTIME_TRUST,
         "assumptions": ["partial: the theorem is progress (a server-only step is always enabled while a Stop is in progress); seconds are measured by the oracle; handlers are assumed to return once their I/O fails"],
@@ -187,7 +190,8 @@ PROPS = {
     },
     "C13": {
         "lean": ["GldapModel.Props.C13"], "audit": "GldapModel/Audit/C13.lean",
-        "inventory": ["conn.serveRequests", "conn.initConn", "Request.StartTLS", "conn.readPacket", "newResponseWriter"],
+        "inventory": ["conn.serveRequests", "conn.initConn", "Request.StartTLS", "conn.readPacket", "newResponseWriter", "ResponseWriter.Write",
+                      "sites.connwriter", "sites.deadline", "sites.go"],
         "streams": [{"stream": "c13", "n_quick": 30, "n_thorough": 500, "timeout_quick": 900, "timeout_thorough": 3000}],
         "trusted": RUNTIME_TRUST + ["crypto/tls: after a successful handshake every byte on the connection is TLS-protected"],
         "assumptions": ["partial: the theorem covers gldap's plumbing (the StartTLS handler runs on the connection goroutine, nothing is read meanwhile, writers are created per iteration after the swap); scope: no earlier handler is still in flight when StartTLS is read (RFC 4511 4.14.1 forbids outstanding operations)"],
